@@ -145,6 +145,15 @@ fn check_getters(pkg: &Package<SharedBuf>, m: &M, when: &str, after_reopen: bool
     }
     for i in 0..5 {
         if after_reopen && m.lossy[i] {
+            // C14: a character the page cannot represent is stored as the single byte '?'
+            let want = match m.strs[i].as_ref().map(|s| substituted(s, page_of(m))) {
+                Some(None) => continue,
+                Some(Some(w)) => Some(w),
+                None => None,
+            };
+            if strs[i] != want {
+                return Err(bad(STR_NAMES[i], format!("{:?}", strs[i]), format!("{want:?} (as set: {:?}; the characters code page {} cannot represent read back as '?')", m.strs[i], m.codepage)));
+            }
             continue;
         }
         if strs[i] != m.strs[i] {
@@ -172,6 +181,27 @@ fn check_getters(pkg: &Package<SharedBuf>, m: &M, when: &str, after_reopen: bool
 
 /// (b) the saved stream is a well-formed property set that an independent
 /// parser reads to the same values.
+/// What a string reads back as once it has been stored in `page`: each
+/// character the page cannot represent has become '?' (C14).
+/// `None` when the string holds one of the characters for which the reference
+/// encoder itself has a best-fit mapping instead of '?' (YEN SIGN under 932 and
+/// the like): those pairs are C14's known findings, not C10's to judge.
+fn substituted(s: &str, page: &Page) -> Option<String> {
+    let mut out = String::new();
+    for c in s.chars() {
+        if page.representable(c) {
+            out.push(c);
+        } else {
+            let mut tmp = [0u8; 4];
+            if page.encode(c.encode_utf8(&mut tmp)) != b"?" {
+                return None;
+            }
+            out.push('?');
+        }
+    }
+    Some(out)
+}
+
 fn check_stream(bytes: &[u8], m: &M, trace: &str) -> Check {
     let d = fmt::decode(bytes).map_err(|e| Fail::new(format!("{P} file-undecodable"), format!("{e}; history: {trace}")))?;
     let raw = d.raw_streams.get(fmt::SUMMARY_STREAM).ok_or_else(|| Fail::new(format!("{P} no-summary-stream"), format!("history: {trace}")))?;
@@ -191,7 +221,15 @@ fn check_stream(bytes: &[u8], m: &M, trace: &str) -> Check {
         match (&m.strs[i], got) {
             (None, None) => {}
             (Some(want), Some(PVal::LpStr(b))) => {
-                if !m.lossy[i] && page.decode(b) != *want {
+                let want = if m.lossy[i] {
+                    match substituted(want, page) {
+                        Some(w) => w,
+                        None => continue,
+                    }
+                } else {
+                    want.clone()
+                };
+                if page.decode(b) != want {
                     return Err(bad(STR_IDS[i], format!("{:?} = {:02X?}", page.decode(b), b), format!("{want:?} in code page {}", m.codepage)));
                 }
             }
@@ -442,7 +480,7 @@ fn sop() -> impl Strategy<Value = SOp> {
 pub fn run(ctx: &Ctx) -> Report {
     let mut rep = Report::new(
         "exploration",
-        "sequences of the ten setters and clearers, code-page switches over all 26 pages in any order (including back to UTF-8), strings of 0..8 characters from the current page's repertoire (every length class modulo 4 in UTF-8 and encoded form, multi-byte characters), one string in 16 repeated up to 1000..4500 characters, plus a class with an unrepresentable character, architecture and languages in either order, creation times from ordinary, extreme and sub-tick generators; save and reopen at generated points in all three close modes and always at the end. Oracles: (a) getters == model immediately, before closing and after reopening; (b) the raw summary stream parsed by the strict independent property-set parser (aligned in-bounds offsets, typed values, contiguous layout, exact section size, stream length) yields the same values by property id. Non-trivial = at least two strings set with utf8_len%4 != encoded_len%4 somewhere, or a code-page switch; distinct by op list.",
+        "sequences of the ten setters and clearers, code-page switches over all 26 pages in any order (including back to UTF-8), strings of 0..8 characters from the current page's repertoire (every length class modulo 4 in UTF-8 and encoded form, multi-byte characters), one string in 16 repeated up to 1000..4500 characters, plus a class with an unrepresentable character (which must read back as '?' after saving, in the getter and in the independent parser's reading of the stream), architecture and languages in either order, creation times from ordinary, extreme and sub-tick generators; save and reopen at generated points in all three close modes and always at the end. Oracles: (a) getters == model immediately, before closing and after reopening; (b) the raw summary stream parsed by the strict independent property-set parser (aligned in-bounds offsets, typed values, contiguous layout, exact section size, stream length) yields the same values by property id. Non-trivial = at least two strings set with utf8_len%4 != encoded_len%4 somewhere, or a code-page switch; distinct by op list.",
     );
     rep.assumptions.push("a string with characters its code page cannot represent is only required not to panic, to leave the stream well formed and the other properties intact".into());
     let mut st = Stats::new();
